@@ -98,9 +98,12 @@ type Sess struct {
 	// DropNotes (legacy sessions): the server-side transport of this session refuses every notification the
 	// server writes to it (a per-message rejection, the connection stays up). Nothing is expected to reach
 	// this session; the point is that the other sessions still get theirs.
-	DropNotes bool    `json:"drop_notes,omitempty"`
-	H         [3]bool `json:"h"`                 // list-changed handlers set in ClientOptions: tools, prompts, resources
-	Initial   bool    `json:"initial,omitempty"` // connected before the timeline starts
+	DropNotes bool `json:"drop_notes,omitempty"`
+	// ReadInHandler: the session's ResourceUpdatedHandler reads the resource it was told about right away, inside
+	// the handler (the natural reaction): what it gets is at least as new as the change it was told about.
+	ReadInHandler bool    `json:"read_in_handler,omitempty"`
+	H             [3]bool `json:"h"`                 // list-changed handlers set in ClientOptions: tools, prompts, resources
+	Initial       bool    `json:"initial,omitempty"` // connected before the timeline starts
 }
 
 type Event struct {
@@ -162,6 +165,7 @@ func gen(rt *rapid.T) Script {
 		var x Sess
 		x.Legacy = rapid.IntRange(0, 9).Draw(rt, "legacy") < 4
 		x.SlowConnect = rapid.IntRange(0, 3).Draw(rt, "slow_connect") == 0
+		x.ReadInHandler = rapid.IntRange(0, 2).Draw(rt, "read_in_handler") == 0
 		x.DropNotes = x.Legacy && rapid.IntRange(0, 3).Draw(rt, "drop_notes") == 0
 		switch m := rapid.IntRange(0, 9).Draw(rt, "handlers"); {
 		case m < 4:
@@ -274,8 +278,11 @@ type world struct {
 	start   time.Time
 	sent    []*sentRec
 	handled []handledRec
-	calls   []*callRec
-	content map[string]int // uri -> content version (what the read handler returns)
+	// complaints of reads made inside a ResourceUpdatedHandler, and how many such reads were made
+	inHandler      []string
+	readsInHandler int
+	calls          []*callRec
+	content        map[string]int // uri -> content version (what the read handler returns)
 }
 
 func (w *world) tick() int {
@@ -603,7 +610,38 @@ func runInBubble(s Script) (res vt.Result) {
 		if sl.spec.H[2] {
 			copts.ResourceListChangedHandler = func(context.Context, *mcp.ResourceListChangedRequest) {}
 		}
-		copts.ResourceUpdatedHandler = func(context.Context, *mcp.ResourceUpdatedNotificationRequest) {}
+		copts.ResourceUpdatedHandler = func(hctx context.Context, r *mcp.ResourceUpdatedNotificationRequest) {
+			if !sl.spec.ReadInHandler || sl.cs == nil || r.Params == nil {
+				return
+			}
+			uri := r.Params.URI
+			// which send is this? the k-th to this session for this URI that was not refused, k = those handled so far
+			w.mu.Lock()
+			k := 0
+			for _, h := range w.handled {
+				if h.slot == i && h.nk == -1 && h.uri == uri {
+					k++
+				}
+			}
+			var cand []*sentRec
+			for _, sr := range w.sent {
+				if sr.nk == -1 && sr.uri == uri && sr.ss == sl.ss && !(sr.done && sr.err != nil) {
+					cand = append(cand, sr)
+				}
+			}
+			w.mu.Unlock()
+			rr, err := sl.cs.ReadResource(hctx, &mcp.ReadResourceParams{URI: uri})
+			if err != nil || len(rr.Contents) != 1 || k >= len(cand) {
+				return
+			}
+			ver, cerr := strconv.Atoi(strings.TrimPrefix(rr.Contents[0].Text, "v"))
+			w.mu.Lock()
+			if cerr == nil && ver < cand[k].ver {
+				w.inHandler = append(w.inHandler, fmt.Sprintf("clause 4: session %d (%s, ttl %dms) was told that %s had changed (sent when the content was v%d) and a ReadResource made inside its ResourceUpdatedHandler returned the older v%d", i, descSess(sl.spec), s.TTLMs, uri, cand[k].ver, ver))
+			}
+			w.readsInHandler++
+			w.mu.Unlock()
+		}
 		c := mcp.NewClient(&mcp.Implementation{Name: "cli" + strconv.Itoa(i), Version: "1"}, copts)
 		c.AddReceivingMiddleware(func(next mcp.MethodHandler) mcp.MethodHandler {
 			return func(ctx context.Context, method string, req mcp.Request) (mcp.Result, error) {
@@ -1130,6 +1168,12 @@ func runInBubble(s Script) (res vt.Result) {
 			}
 		}
 		return out
+	}
+	for _, c := range w.inHandler {
+		res.Failf("%s", c)
+	}
+	if w.readsInHandler > 0 {
+		res.Class("resource_read_inside_the_updated_handler")
 	}
 	ncalls, nerr, npending, judged := 0, 0, 0, 0
 	for _, c := range w.calls {
